@@ -121,6 +121,7 @@ var fallbackQueries = []string{"count() by a | sort -r count", "where a==1 and b
 	"yield {a:1,b:[1,2],c:|{1:2}|,d:<int64>} | summarize collect(a) by typeof(b)", "fork (=> count() => sum(a)) | merge a", "const X=1 func f(x):(x+X) op o(y):(yield f(y)) o(1)"}
 
 func genQuery(t *rapid.T) Case {
+	repoCorpus()
 	c := Case{Kind: "query"}
 	pool := repoQueries
 	if len(pool) == 0 {
@@ -181,7 +182,15 @@ func compileQuery(text string, rep *reporter) (stage string) {
 		}
 		stage = "compiled"
 	}); p != nil {
-		rep.report("C11/compile/panic@"+p.site(), "compiling %q panicked in stage %s\n%s", text, stage, p.text())
+		site := p.site()
+		if strings.HasPrefix(p.frames[0], "/compiler/parser.(*current).on") {
+			// One root cause: parser.ParseSuperPipe runs the generated parser with
+			// Recover(false), so a panic in any grammar action (typically a type
+			// assertion on the nil left behind by an earlier action error)
+			// escapes compiler.Parse instead of becoming a parse error.
+			site = "/compiler/parser.(*current).on*[grammar-action]"
+		}
+		rep.report("C11/compile/panic@"+site, "compiling %q panicked in stage %s\n%s", text, stage, p.text())
 		return "panic"
 	}
 	return stage
